@@ -699,6 +699,15 @@ func runCheckOne(args []string) int {
 	if len(trusted) > 0 {
 		assumptions = append(assumptions, "trusted contracts (assumed at callers, bodies not verified): "+strings.Join(trusted, ", "))
 	}
+	// data-structure invariants and configuration facts assumed at the entry of a verified function (assume-entry): they are
+	// not checked at the callers, so each one is an assumption of this run
+	for _, n := range fnNames {
+		if c := V.contracts[n]; c != nil {
+			for _, cl := range c.Entry {
+				assumptions = append(assumptions, "assumed at the entry of "+n+" (not checked at its callers): "+cl.Text)
+			}
+		}
+	}
 	ev := map[string]interface{}{
 		"property_id": *prop,
 		"tier":        *tier,
